@@ -55,7 +55,7 @@ const OPT_NONAN: Options = Options::builder().nan_string(None).build_unchecked()
 const OPT_NOINF: Options = Options::builder().inf_string(None).build_unchecked();
 
 crate::harnesses! {
-    /// every NaN / infinity bit pattern of f32 and f64 (any payload, any sign), default options.
+    /// every NaN / infinity bit pattern of f32 (any payload, any sign), default options.
     /// @prop C15 C09 C17
     /// @feat default radix_format
     /// @fn lexical-write-float::write::WriteFloat::write_float (sign handling, special dispatch)
@@ -65,15 +65,25 @@ crate::harnesses! {
     fn write_special_default() {
         // the exponent field is concrete (all ones) so that the finite-float writers are pruned syntactically
         let m32: u32 = any();
-        let m64: u64 = any();
         let b32: u32 = 0x7F80_0000 | (m32 & 0x807F_FFFF);
-        let b64: u64 = 0x7FF0_0000_0000_0000 | (m64 & 0x800F_FFFF_FFFF_FFFF);
         let o = Options::new();
         let r = cmp_special_write_f32(b32, &o, b"NaN", b"inf");
         vcheck!(matches!(r, Ok(true)), "f32 specials are written as documented");
+        cover(f32::from_bits(b32).is_nan() && b32 >> 31 == 1);
+    }
+
+    /// every NaN / infinity bit pattern of f64 (any payload, any sign), default options.
+    /// @prop C15 C09 C17
+    /// @feat default radix_format
+    /// @fn lexical-write-float::write::WriteFloat::write_float (sign handling, special dispatch)
+    /// @timeout 900
+    #[cfg_attr(kani, kani::unwind(12))]
+    fn write_special_default_f64() {
+        let m64: u64 = any();
+        let b64: u64 = 0x7FF0_0000_0000_0000 | (m64 & 0x800F_FFFF_FFFF_FFFF);
+        let o = Options::new();
         let r = cmp_special_write_f64(b64, &o, b"NaN", b"inf");
         vcheck!(matches!(r, Ok(true)), "f64 specials are written as documented");
-        cover(f32::from_bits(b32).is_nan() && b32 >> 31 == 1);
     }
 
     /// signed zeros (the four concrete values): '-0.0' <-> negative zero.
